@@ -103,11 +103,11 @@ class Mon:
     """A persistent executor process: one JSON request per line in, one JSON
     reply per line out."""
 
-    def __init__(self, mode, env=None, binary="vpmon", preexec=None, cwd=None):
+    def __init__(self, mode, env=None, binary="vpmon", preexec=None, cwd=None, prefix=()):
         e = dict(os.environ)
         if env:
             e.update(env)
-        self.args = [os.path.join(BIN, binary), mode]
+        self.args = list(prefix) + [os.path.join(BIN, binary), mode]
         self.p = subprocess.Popen(self.args, stdin=subprocess.PIPE, stdout=subprocess.PIPE,
                                   env=e, preexec_fn=preexec, cwd=cwd)
 
@@ -413,3 +413,39 @@ def _short(v):
 
 def snap_json(s):
     return {k.hex(): [x.hex() if isinstance(x, bytes) else x for x in v] for k, v in s.items()}
+
+
+NOBODY = ["setpriv", "--reuid=65534", "--regid=65534", "--clear-groups"]
+
+
+def nobody_works():
+    """Can we drop to an unprivileged uid (needed for real permission semantics)?"""
+    try:
+        p = subprocess.run(NOBODY + ["id", "-u"], stdout=subprocess.PIPE, stderr=subprocess.PIPE, text=True, timeout=20)
+        return p.returncode == 0 and p.stdout.strip() == "65534"
+    except Exception:  # noqa: BLE001
+        return False
+
+
+def chown_tree(path, uid=65534, gid=65534):
+    os.lchown(path, uid, gid)
+    for root, dirs, files in os.walk(path):
+        for n in dirs + files:
+            os.lchown(os.path.join(root, n), uid, gid)
+
+
+def read_trace(path):
+    """fsshim log -> list of dicts"""
+    out = []
+    if not os.path.exists(path):
+        return out
+    with open(path, "rb") as f:
+        for line in f.read().split(b"\n"):
+            if not line:
+                continue
+            p = line.split(b"\t")
+            if len(p) < 7:
+                continue
+            out.append({"seq": int(p[0]), "call": p[1].decode(), "class": p[2].decode(), "raw": p[3], "phys": p[4], "result": int(p[5]), "errno": int(p[6]),
+                        "tag": p[7].decode() if len(p) > 7 else ""})
+    return out
